@@ -6,7 +6,7 @@ with the unique-value trick (every element-matrix entry encodes (e, a, b)).
 """
 import numpy as onp
 
-from vlib.common import Res, derive_seed, rng_of
+from vlib.common import Res, derive_seed, rng_of, raised_in_library, library_frames
 
 PROPERTY = "C14"
 LEVEL = "exploration"
@@ -26,6 +26,8 @@ def build_cases(tier, seed):
         cases.append({"cls": "exhaustive_2x2_dim2", "group": "ex%d" % (chunk % 8), "bits": list(range(chunk * 16, chunk * 16 + 16)), "dim": 2})
     cases.append({"cls": "exhaustive_2x2_dim1", "group": "ex0", "bits": list(range(16)), "dim": 1})
     n_rand = 96 if tier == "quick" else 3000
+    for i in range(6 if tier == "quick" else 60):
+        cases.append({"cls": "large", "group": "L%d" % (i % 16), "seed": derive_seed(seed, PROPERTY, "large", i), "kind": "large", "cost": 4})
     for i in range(n_rand):
         s = derive_seed(seed, PROPERTY, "random", i)
         cases.append({"cls": "random", "group": "r%d" % (i % 16), "seed": s})
@@ -34,6 +36,14 @@ def build_cases(tier, seed):
         s = derive_seed(seed, PROPERTY, kind, i)
         cases.append({"cls": "corner_" + kind, "group": "c%d" % (i % 16), "seed": s, "kind": kind})
     return cases
+
+
+def on_exception(case, exc, res):
+    """Every input the generator produces is admissible: an exception from inside the library is a violation."""
+    if raised_in_library(exc):
+        res.violate("library_raised", {"type": type(exc).__name__, "msg": str(exc)[:200], "frames": library_frames(exc)})
+        return True
+    return False
 
 
 def _check_manager(res, mesh, dim, ebcs, rng):
@@ -165,7 +175,13 @@ def run_case(case):
     rng = rng_of(case["seed"])
     order = int(rng.integers(1, 4))
     dim = int(rng.integers(1, 4))
-    if rng.random() < 0.5:
+    kind = case.get("kind", "random")
+    if kind == "large":
+        order = int(rng.integers(1, 3))
+        spec = {"kind": "structured" if rng.random() < 0.5 else "delaunay", "nx": int(rng.integers(6, 10)), "ny": int(rng.integers(5, 9)),
+                "order": order, "seed": int(rng.integers(1 << 30))}
+        kind = "random"
+    elif rng.random() < 0.5:
         spec = {"kind": "structured", "nx": int(rng.integers(2, 5)), "ny": int(rng.integers(2, 5)), "order": order,
                 "bubble": bool(order >= 2 and rng.random() < 0.3)}
     else:
@@ -173,7 +189,6 @@ def run_case(case):
                 "hole": bool(rng.random() < 0.3), "seed": int(rng.integers(1 << 30))}
     mesh = meshes.build(spec, rng)
     nNodes = int(mesh.coords.shape[0])
-    kind = case.get("kind", "random")
     sets = {}
     ebcs = []
     if kind == "random":
